@@ -212,46 +212,51 @@ def corrupt_control(ctx, files):
     for ln in lines:
         if ln["aborted"]:
             continue
-        if "drop-result" not in picked and ln["step"] == 1 and len(ln["res"]) >= 2 and ln["case"] not in picked.values():
-            picked["drop-result"] = ln["case"]
-        nested_unm = [c for c in ln["plan"] if c["act"] == "unmount"]
-        if "swap-unmounts" not in picked and len(nested_unm) >= 2 and ln["step"] >= 2 and \
-                any(a["e"]["p"][:len(b["e"]["p"])] == b["e"]["p"] and len(a["e"]["p"]) > len(b["e"]["p"])
-                    for a in nested_unm for b in nested_unm):
-            picked["swap-unmounts"] = ln["case"]
+        if "drop-result" not in picked and ln["step"] == 1 and len(ln["res"]) >= 2 and ln["case"] not in [c for c, _ in picked.values()]:
+            picked["drop-result"] = (ln["case"], 1)
+        unm = {c["e"]["c"] for c in ln["plan"] if c["act"] == "unmount"}
+        cur = [e for e in ln["cur"] if e["c"] in unm and e["k"] != "ensure-dir"]
+        # a parent listed in the profile before an entry beneath it, both unmounted by this update
+        if "swap-unmounts" not in picked and ln["step"] >= 2 and ln["case"] not in [c for c, _ in picked.values()] and \
+                any(len(b["p"]) > len(a["p"]) and b["p"][:len(a["p"])] == a["p"]
+                    for i, a in enumerate(cur) for b in cur[i + 1:]):
+            picked["swap-unmounts"] = (ln["case"], ln["step"])
         if "keep-to-unmount" not in picked and ln["step"] >= 2 and any(c["act"] == "keep" and not c["e"]["s"] for c in ln["plan"]) \
-                and ln["case"] not in picked.values():
-            picked["keep-to-unmount"] = ln["case"]
+                and ln["case"] not in [c for c, _ in picked.values()]:
+            picked["keep-to-unmount"] = (ln["case"], ln["step"])
     if len(picked) < 3:
         raise InfraError("corruption control: no suitable recorded updates found (%s)" % picked)
     out, expect = [], {}
-    for kind, case in picked.items():
+    for kind, (case, at) in picked.items():
         hist = [copy.deepcopy(l) for l in lines if l["case"] == case]
+        orig = copy.deepcopy(hist)
+        for l in orig:
+            l["case"] = kind + "-orig"
         for l in hist:
             l["case"] = kind
         if kind == "drop-result":
-            hist = hist[:1]
+            hist, orig = hist[:1], orig[:1]
             hist[0]["res"] = hist[0]["res"][:-1]
             expect[kind] = {"ApplyMatches"}
         elif kind == "swap-unmounts":
             for n, l in enumerate(hist):
                 um = [i for i, c in enumerate(l["plan"]) if c["act"] == "unmount"]
-                if l["step"] >= 2 and len(um) >= 2:
-                    # reverse the unmounts
-                    vals = [l["plan"][i] for i in um][::-1]
+                if l["step"] == at:
+                    vals = [l["plan"][i] for i in um][::-1]          # reverse the unmounts
                     for i, v in zip(um, vals):
                         l["plan"][i] = v
-                    hist = hist[:n + 1]
+                    hist, orig = hist[:n + 1], orig[:n + 1]
                     break
-            expect[kind] = {"UnmountOrder"}
+            expect[kind] = {"UnmountOrder", "UnmountOrderTrue"}
         else:
             for n, l in enumerate(hist):
                 ks = [i for i, c in enumerate(l["plan"]) if c["act"] == "keep" and not c["e"]["s"]]
-                if l["step"] >= 2 and ks:
+                if l["step"] == at:
                     l["plan"][ks[0]]["act"] = "unmount"
-                    hist = hist[:n + 1]
+                    hist, orig = hist[:n + 1], orig[:n + 1]
                     break
-            expect[kind] = {"KeptInPlace", "ApplyMatches", "Result.missing-desired/other"}
+            expect[kind] = {"ApplyMatches", "PlanCoversCurrent", "KeptInPlace"}
+        out.extend(orig)
         out.extend(hist)
     d = ctx.subdir("corrupt")
     p = os.path.join(d, "corrupt.ndjson")
@@ -261,10 +266,13 @@ def corrupt_control(ctx, files):
     for v in rep["viol"]:
         got[lns[v["line"] - 1]["case"]].update(v["tags"])
     for kind, exp in expect.items():
-        if not (got.get(kind, set()) & exp):
-            raise InfraError("corruption control %s: TLC accepted corrupted real updates (got %s, expected one of %s)"
-                             % (kind, sorted(got.get(kind, [])), sorted(exp)))
-    return {k: sorted(v) for k, v in got.items()}
+        # the verdict on the expected clauses must differ between the recorded and the corrupted updates
+        a = {t.split("/")[0] for t in got.get(kind, set())} & exp
+        b = {t.split("/")[0] for t in got.get(kind + "-orig", set())} & exp
+        if a == b:
+            raise InfraError("corruption control %s: TLC gives the same verdict for corrupted real updates (%s) as for the "
+                             "recorded ones (%s)" % (kind, sorted(got.get(kind, [])), sorted(got.get(kind + "-orig", []))))
+    return {k: sorted(v) for k, v in got.items() if not k.endswith("-orig")}
 
 
 # ------------------------------------------------------------------------------------------------ codec
